@@ -74,6 +74,7 @@ type semIn struct {
 	Opts   *semOpts        `json:"opts"`
 	Tag    string          `json:"tag"`
 	Keep   bool            `json:"keep"`
+	Clause string          `json:"clause"`
 
 	QID    int             `json:"qid"`
 	Q      json.RawMessage `json:"q"`
@@ -609,7 +610,7 @@ func semMain(args []string) {
 			}
 			sort.Strings(names)
 			wr.Put(map[string]interface{}{"ev": "file", "id": e.ID, "serial": e.Serial, "lines": e.Lines, "backends": names,
-				"comperr": world.compErr, "tag": e.Tag, "keep": e.Keep})
+				"comperr": world.compErr, "tag": e.Tag, "keep": e.Keep, "clause": e.Clause})
 		case "q":
 			if world == nil {
 				hx.Die("query before file")
